@@ -43,6 +43,9 @@ STREAMS = {
     "synth": {"relevant": True, "desc": "histories on synthetic TLV configurations with random transform programs"},
     "wire": {"relevant": True, "desc": "decoders of every key variant (incl. RSA-key-only) built from ONE configuration of the c2test "
              "beacon recover its recorded check-in / task / callback in random interleavings (iter_recover_http)"},
+    "raising": {"relevant": True, "desc": "configurations with ONE setting whose pretty function raises (a SETTING_BEACON_GATE value shorter than its "
+                "bitmap): every use of a rendered view / decoder / client / profile raises the same exception whatever came before, the raw views "
+                "keep working, nothing observable changes (driver-level rule `raisingRule`, not part of the heap model)"},
     "degenerate": {"relevant": True, "desc": "configurations lacking settings / trial / non-HTTP / bad public key (exception paths)"},
 }
 TRUSTED = [
@@ -623,12 +626,88 @@ def gen(tier, rng, shard, nshards):
         for _ in range(2):
             n = rng.randrange(1, 26)
             yield "synth", mk_line(tok, gen_ops(rng, n, True, rng.random() < 0.5))
+    for _ in range((1200 if thorough else 120) // nshards):
+        ln = gen_raising(rng)
+        if ln is not None:
+            yield "raising", ln
     for _ in range((900 if thorough else 70) // nshards):
         tok = C.hx(gen_synth(rng, degenerate=True, own_key=rng.random() < 0.8))
         n = rng.randrange(1, 16)
         yield "degenerate", mk_line(tok, gen_ops(rng, n, False, rng.random() < 0.5))
         if rng.random() < 0.3:
             yield "degenerate", mk_line(tok, rng.choice(DIRECTED))
+
+
+def gen_raising(rng):
+    """(line) a synthetic configuration plus one non-renderable setting, and 2-9 uses of it"""
+    blk = gen_synth(rng)
+    val = rng.choice([b"", b"\x00", b"\x00\x01", b"\x01\x02\x03"])
+    bad = tlv(78, 3, val)
+    pos = rng.choice(["end", "front", "mid"])
+    body = blk[:-6]
+    if pos == "end":
+        body = body + bad
+    elif pos == "front":
+        body = bad + body
+    else:
+        # between two settings: walk the TLVs
+        offs, o = [0], 0
+        while o + 6 <= len(body):
+            o += 6 + int.from_bytes(body[o + 4:o + 6], "big")
+            offs.append(o)
+        cut = rng.choice(offs)
+        body = body[:cut] + bad + body[cut:]
+    try:
+        B.SETTING_TO_PRETTYFUNC[B.BeaconSetting(78)](val)
+        return None                                   # renders after all: not a case of this stream
+    except Exception as e:  # noqa: BLE001
+        exc = type(e).__name__
+    pool = ["va:0", "va:1", "va:2", "va:3", "c2:0", "c2:1", "pf", "cl:T", "va:0", "c2:0"]
+    ops = []
+    for _ in range(rng.randrange(2, 10)):
+        if rng.random() < 0.15:
+            ops.append(f"sm:{rng.randrange(3)}:{rng.choice('TF')}:{rng.choice('TF')}")
+        else:
+            ops.append(rng.choice(pool))
+    return "rais " + exc + " - " + C.hx(body + bytes(6)) + " 0 " + " ".join(ops)
+
+
+def raw_snapshot(cfg):
+    """what stays observable of a configuration whose rendered views raise: the Setting structures, the block, the two raw
+    views, the three unrendered settings_map variants, and the names hanging off the object"""
+    pre = tuple((repr(s.index), repr(s.type), int(s.length), bytes(s.value), s.dumps()) for s in cfg.settings_tuple)
+    views = [[(repr(k), copy.deepcopy(v)) for k, v in getattr(cfg, name).items()] for name in VIEWS[2:]]
+    maps = [[(repr(k), copy.deepcopy(v)) for k, v in cfg.settings_map(index_type=kd, pretty=False, parse=pa).items()] for kd in KINDS for pa in (True, False)]
+    return pre, bytes(cfg.config_block), views, maps
+
+
+def impl_raising(line):
+    w = line.split(" ")
+    tok, ops = w[3], w[5:]
+    logging.disable(logging.CRITICAL)
+    try:
+        cfg = fresh(tok)
+        initial = raw_snapshot(fresh(tok))
+        r = Runner(cfg, tok)
+        r.text_budget = 0
+        out, viol = [], None
+        for i, op in enumerate(ops):
+            try:
+                kind, _payload, can = r.run(op)
+                tokn = kind
+            except Exception as e:  # noqa: BLE001
+                _reraise_watchdog(e)
+                can = ("exc", type(e).__name__)
+                tokn = "E:" + type(e).__name__
+            if viol is None and run_fresh(tok, op, {}, False) != can:
+                viol = f"history@{i}"
+            if viol is None and raw_snapshot(cfg) != initial:
+                viol = f"snapshot@{i}"
+            out.append(tokn)
+        out.append("O:ok" if viol is None else "O:viol:" + viol)
+        return " ".join(out)
+    finally:
+        logging.disable(logging.NOTSET)
 
 
 # ---------------------------------------------------------------------------------------------------------
@@ -969,6 +1048,8 @@ def exc_name(e) -> str:
 
 
 def impl(stream, line):
+    if stream == "raising":
+        return impl_raising(line)
     w = line.split(" ")
     tok = w[3]
     n = int(w[4])
@@ -1054,6 +1135,8 @@ def nontrivial(stream, line, out):
     if out.startswith("exc "):
         return False
     toks = out.split(" ")
+    if stream == "raising":
+        return any(t.startswith("E:") for t in toks[1:]) and len(toks) > 2
     return any(t[0] in "DPSW" for t in toks) and any(t.startswith("N:") for t in toks)
 
 
